@@ -58,7 +58,7 @@ impl Property for C10 {
         "deterministic simulation of seeded prefix histories (with snapshots and thresholds drawn per run, threaded sub-batch under the token scheduler) followed by a metamorphic oracle: schedule expressions related by an algebraic law run on clones of the same engine, and the same schedule on the reference model"
     }
     fn rule(&self) -> &'static str {
-        "case = seeded prefix history, then one law instance drawn by the seed: (run R n) vs n separate (run R 1) commands; (repeat a (repeat b s)) vs (repeat a*b s); (saturate s) vs six repetitions when those reach a fixpoint, then s again must report updated=false with an unchanged database; seq associativity and unit; a combined ruleset vs one ruleset holding the same rules, also after a rule is added to a sub-ruleset; (run R n :until f) vs the manual check-then-run loop. Both sides must give equal id-free dumps and equal updated flags, and the dump must equal the reference model's result for the same schedule. Non-trivial = the schedule updated the database on the left side; distinct = distinct (prefix, law instance)."
+        "case = seeded prefix history, then one law instance drawn by the seed: (run R n) vs n separate (run R 1) commands; (repeat a (repeat b s)) vs (repeat a*b s); (saturate s) vs six repetitions when those reach a fixpoint, then s again must report updated=false with an unchanged database; seq associativity and unit; a combined ruleset vs one ruleset holding the same rules, also after a rule is added to a sub-ruleset, and (every other case) through a nested combination that has already been run before the rule is added; (run R n :until f) vs the manual check-then-run loop. Both sides must give equal id-free dumps and equal updated flags, and the dump must equal the reference model's result for the same schedule. Non-trivial = the schedule updated the database on the left side; distinct = distinct (prefix, law instance)."
     }
     fn assumptions(&self) -> Vec<String> {
         vec![
